@@ -74,7 +74,7 @@ class Tree:
     pass
 
 
-def gen_tree(rng, mod, npk=None, atomic=None, unreachable_ok=True):
+def gen_tree(rng, mod, npk=None, atomic=None):
     n = npk or rng.randint(2, 8)
     t = Tree()
     t.mod = mod
@@ -91,8 +91,6 @@ def gen_tree(rng, mod, npk=None, atomic=None, unreachable_ok=True):
         p.deps = [0] + [q for q in cand if rng.random() < 0.55]
         if p.id == n - 1 and n > 2 and len(p.deps) == 1:
             p.deps.append(rng.choice(cand))
-        if not unreachable_ok and p.id == n - 1:
-            p.deps = [0] + cand if rng.random() < 0.3 else p.deps
     if atomic is None:
         atomic = rng.random() < 0.5
     if atomic:
@@ -214,7 +212,7 @@ def expr(p, const, refs):
 
 
 def render(t):
-    files = {"go.mod": "module %s\n\ngo 1.24\n" % t.mod}
+    files = {}      # relative to the tree's root directory; the batch writes go.mod (t.mod is the import path of the root)
     files["tr/tr.go"] = ("package tr\n\nvar n int\n\n// T traces one initialisation step.\n"
                          "func T(s string, v int) int { println(s, v); n++; return v }\n\n"
                          "func N() int { return n }\n\nvar Ready = T(\"tr.Ready\", 1)\n\nfunc init() { T(\"tr.init\", 2) }\n")
